@@ -2,6 +2,7 @@ package rt
 
 import (
 	"fmt"
+	"github.com/open-telemetry/otel-arrow/pkg/otel/arrow_record"
 	"testing"
 
 	"verif/common/canon"
@@ -40,18 +41,18 @@ func TestC04(t *testing.T) {
 	exh := r.Env.Thorough()
 	r.Meta(vc.Meta{
 		Level:       "exploration",
-		Rule:        "case = (producer option set, stream history) decoded by a DEFAULT consumer and compared as canonical multisets. Layers: 'product' = option product limit{none,8,16,32,64,default} x reset{0,.05,.3,1,10,default} x zstd{on,off} x 7 OrderSpanBy x 4 OrderAttrs16By x 5 OrderAttrs32By on short hostile trace histories (thorough: all 10,080 combinations; quick: a PRNG sample), and limit x reset x zstd for logs/metrics; 'ramp' = cardinality ramps steering dictionary columns across 255 / 65,535 / the limit in low-reuse (overflow) and high-reuse (reset) regimes, for the three signals. Non-trivial = >=1 dictionary transition (upgrade/overflow/reset) or a non-default ordering option. Distinct = (options, signal, transitions observed).",
+		Rule:        "case = (producer option set, stream history) decoded by a DEFAULT consumer and compared as canonical multisets. Layers: 'product' = option product limit{none,8,16,32,64,default} x reset{0,.05,.3,1,10,default} x zstd{on,off} x 7 OrderSpanBy x 4 OrderAttrs16By x 5 OrderAttrs32By on short hostile trace histories (thorough: all 10,080 combinations; quick: a PRNG sample), and limit x reset x zstd for logs/metrics; 'ramp' = cardinality ramps steering dictionary columns across 255 / 65,535 / the limit in low-reuse (overflow) and high-reuse (reset) regimes, for the three signals; 'wide' = histories in which every dictionary-encodable field of every record type is unique per item (all columns cross their index width in the same build) and an evolving 70-batch stream in which the columns overflow one after the other, decoded under a memory limit four times the stream's measured need. Non-trivial = >=1 dictionary transition (upgrade/overflow/reset) or a non-default ordering option. Distinct = (options, signal, transitions observed).",
 		Assumptions: []string{"32->64-bit index transition not reachable (4e9 distinct values)", "oracle as C01-C03"},
 		Gates: map[string]map[string]int{
-			"quick":    {"obs.new_field": 1000, "obs.upgrade_8_to_16": 10, "obs.overflow": 10, "obs.reset": 10, "order_options_seen": 16},
-			"thorough": {"obs.new_field": 50000, "obs.upgrade_8_to_16": 200, "obs.overflow": 200, "obs.reset": 200, "obs.upgrade_16_to_32": 1, "order_options_seen": 16},
+			"quick":    {"obs.new_field": 1000, "obs.upgrade_8_to_16": 10, "obs.overflow": 10, "obs.reset": 10, "order_options_seen": 16, "evolving_stream_batches": 210},
+			"thorough": {"obs.new_field": 50000, "obs.upgrade_8_to_16": 200, "obs.overflow": 200, "obs.reset": 200, "obs.upgrade_16_to_32": 1, "order_options_seen": 16, "evolving_stream_batches": 1050},
 		},
 		ExhaustiveLayers: map[bool][]string{true: {"product-traces (10,080 option combinations)", "product-logs", "product-metrics"}, false: nil}[exh],
 		Excluded:         carveNames,
 	})
 	e := r.Env
-	rt := func(c *vc.Case, h *History, o OptSet, sig canon.Signal) {
-		s := roundTripHistory(c, h, o, "C04")
+	rt := func(c *vc.Case, h *History, o OptSet, sig canon.Signal, copts ...arrow_record.Option) {
+		s := roundTripHistory(c, h, o, "C04", copts...)
 		tr := s.Obs.Get("upgrade_8_to_16") + s.Obs.Get("upgrade_16_to_32") + s.Obs.Get("overflow") + s.Obs.Get("reset")
 		c.FP(o.String(), sig.String(), fmt.Sprint(tr > 0))
 		c.Nontrivial(tr > 0 || o.SpanOrder >= 0 || o.A16 >= 0 || o.A32 >= 0)
@@ -101,6 +102,42 @@ func TestC04(t *testing.T) {
 		h := RampHistory(c.R, sig, 6+c.R.IntN(6), 100+c.R.IntN(250), c.R.IntN(2) == 0)
 		rt(c, h, o, sig)
 		c.Sample(map[string]any{"options": o.String(), "script": h.Script, "signal": sig.String(), "overflow": c.NumViolations()})
+	})
+	// every dictionary column of every record type crossing its index width in the SAME build (variants 0, 1:
+	// all fields unique from the first batch on, under limits 8 / 16 / default / none), and an EVOLVING stream
+	// (variant 2: the fields start carrying unique values one after the other under an 8-bit limit, so that some
+	// column overflows - a schema evolution, a replaced IPC stream - every few batches for 70 batches). The
+	// evolving stream is decoded by a consumer whose memory limit is four times what such a stream needs
+	// (measured on the repaired tree: 1.12 / 0.48 / 0.51 KiB per row and batch for traces / logs / metrics, no
+	// growth with the number of evolutions): a valid stream must never be refused for memory.
+	r.Layer("wide", e.Pick(9, 45), func(c *vc.Case) {
+		sig := canon.Signal(c.Idx % 3)
+		variant := (c.Idx / 3) % 3
+		o := RandomOpts(c.R)
+		if sig != canon.Traces {
+			o.SpanOrder, o.A16, o.A32 = -1, -1, -1
+		}
+		o.Limit = []string{"8", "16", "default", "none"}[c.R.IntN(4)]
+		var h *History
+		switch variant {
+		case 0:
+			h = WideHistory(sig, 3, 300, 0)
+			rt(c, h, o, sig)
+		case 1:
+			h = WideHistory(sig, 2, 700, 0)
+			rt(c, h, o, sig)
+		default:
+			n := e.Pick(300, 600)
+			o.Limit, o.Reset = "8", -1
+			h = WideHistory(sig, 70, n, 1)
+			perRow := map[canon.Signal]uint64{canon.Traces: 4608, canon.Logs: 2048, canon.Metrics: 2304}[sig]
+			limit := uint64(n) * perRow
+			m := NewRecMeter()
+			rt(c, h, o, sig, arrow_record.WithMemoryLimit(limit), arrow_record.WithMeterProvider(m))
+			c.Count("evolving_stream_batches", 70)
+			c.Max("max_consumer_memory_inuse_on_an_evolving_stream_permille_of_its_limit", m.InuseMax*1000/int64(limit))
+		}
+		c.Sample(map[string]any{"layer": "wide", "script": h.Script, "signal": sig.String(), "options": o.String()})
 	})
 	// full crossings of 65,535
 	r.Layer("ramp16", e.Pick(6, 48), func(c *vc.Case) {
